@@ -143,6 +143,11 @@ pub fn run(ctx: &Ctx) {
         pass(true, "annex")
     });
 
+    ctx.cold("cold_start_sign", "sign (nonce injected) as the first library operation of a fresh process", || {
+        let n = &r2::params().n;
+        (0..4u64).map(|i| SignCase { d: gen::hex32(&(from_be(&expand_bytes(i ^ 0xc03d, 32)) % (n - 2u32) + 1u32)), id: i as usize, msg_len: 7 + i as usize * 30, msg_seed: i, k: Some(gen::hex32(&(from_be(&expand_bytes(i ^ 0xc03e, 32)) % (n - 1u32) + 1u32))) }).collect()
+    }, check_sign);
+
     ctx.generated("fixed_nonce_exact", "proptest (d, id, message, k) with k injected: exact equality with the reference signer + both verifications", ctx.tier.pick(2_500, 60_000), sign_case, check_sign);
 
     let seed0 = ctx.seed;
